@@ -242,6 +242,8 @@ def build(repo=None):
             for fnode in [ih] + [b_ for b_ in mod.tree.body if isinstance(b_, ast.FunctionDef) and b_ is not ih]:
                 for lp in [x for x in ast.walk(fnode) if isinstance(x, ast.For) and "meta_path" in ast.unparse(x.iter)]:
                     eng.loop_specs[id(lp)] = loop_h
+            # an arbitrary entry of sys.meta_path may be an instance of anything (e.g. a finder installed by an earlier call)
+            eng.method_models["__isinstance__"] = lambda e, s, v, c: z3.FreshConst(BOOL, "entry_is_instance") if isinstance(v, Opaque) and v.tag == "some-existing-finder" else None
 
             def m_insert(e, s, recv, args, kwargs, node):
                 if isinstance(recv, Opaque) and recv.tag.endswith("meta_path"):
@@ -269,7 +271,10 @@ def build(repo=None):
                             args.append(kwargs.pop(p_))
                         else:
                             break
-                    return [(s1, s1.alloc(Obj(clsname, {"args": Tup(args), "kwargs": Tup(list(kwargs.values()))}, tag=clsname)))]
+                    attrs_ = {"args": Tup(args), "kwargs": Tup(list(kwargs.values()))}
+                    if clsname == "Typechecker":
+                        attrs_["get_hash"] = Fn("get_hash", model=lambda e_, s_, a_, k_, n_: [(s_, Z("str", z3.FreshConst(STR, "checker_hash")))])
+                    return [(s1, s1.alloc(Obj(clsname, attrs_, tag=clsname)))]
                 return f
 
             for cn in ("Typechecker", "_JaxtypingFinder", "ImportHookManager"):
@@ -313,6 +318,11 @@ def build(repo=None):
                         eng.oblige(s1, "C11:install:a-single-name-is-wrapped-into-a-list(not-iterated-char-by-char)", z3.BoolVal(isinstance(lst, ListObj) and len(lst.items) == 1 and lst.items[0] is mods_v))
                     else:
                         eng.oblige(s1, "C11:install:a-sequence-of-names-is-passed-through", z3.BoolVal(m0 is mods_v))
+            for ob_ in st.obl:
+                if "hook-goes-to-the-front" in ob_["clause"] or "exactly-one-hook-is-inserted" in ob_["clause"]:
+                    # C18 too: with several hooks alive, which finder claims a module (hence which checker instruments it and which cache file is read / written)
+                    # is decided by the position of the newest hook and by every install owning its own finder
+                    ob_["serves"] = ["C11", "C18"]
             collect(st.obl, ["C11"])
 
     for meth in ("uninstall", "__exit__"):
@@ -353,6 +363,11 @@ def build(repo=None):
             for s1, o in eng.run(f.body, st):
                 paths += 1
                 eng.oblige(s1, "C11:uninstall:removes-exactly-its-own-hook-and-never-raises(idempotent)", z3.BoolVal(o.kind in ("normal", "return") and len(s1.ghost["removed"]) == 1 and s1.ghost["removed"][0] is hook))
+                # frame: nothing else is called or written -- in particular the checker registry Typechecker.lookup, which already-instrumented code
+                # reads every time a nested def / local class is (re)defined, is never shrunk
+                others = [str(x_.get("callee")) for x_ in s1.log if isinstance(x_, dict) and x_.get("callee") not in (None, "remove")] + [str(x_[0]) for x_ in s1.log if isinstance(x_, tuple) and x_]
+                eng.oblige(s1, "C10:uninstall-touches-nothing-but-sys.meta_path(the-checker-registry-read-by-instrumented-code-is-never-shrunk)", z3.BoolVal(not others), calls=z3.StringVal(",".join(others)))
+                s1.obl[-1]["serves"] = ["C10", "C11"]
                 if meth == "__exit__":
                     falsy = o.kind == "normal" or isinstance(o.val, NoneV)
                     eng.oblige(s1, "C11:with-block-exit-uninstalls-for-every-exception-state-and-does-not-swallow", z3.BoolVal(falsy))
